@@ -105,6 +105,34 @@ def boundary_codes(f: dict) -> list[tuple[str, int]]:
     return uniq
 
 
+def table_sweep(db: dict, want=lambda d: True):
+    """every key of every lookup / bit-lookup table once: (definition, tag, payload) through the first positioned,
+    non-match field (of a definition `want` accepts) that uses the table, plus two codes the table does not know"""
+    seen: set = set()
+    for d in db["defs"]:
+        if not want(d):
+            continue
+        for i, f in enumerate(d["fields"]):
+            if f["kind"] not in ("lookup", "bitlookup") or f["off"] < 0 or f["len"] <= 0 or f["match"] != -1:
+                continue
+            key = (f["kind"], f["lookup"])
+            tbl = (db["lookups"] if f["kind"] == "lookup" else db["bitlookups"]).get(f["lookup"])
+            if key in seen or tbl is None:
+                continue
+            seen.add(key)
+            full = (1 << f["len"]) - 1
+            if f["kind"] == "lookup":
+                known = sorted(int(k) for k in tbl if int(k) <= full)
+                unknown = [c for c in range(min(full + 1, 4096)) if c not in set(known)][:2]
+                codes = [(f"key{c}", c) for c in known] + [(f"nokey{c}", c) for c in unknown]
+            else:
+                bits = sorted(int(k) for k in tbl if int(k) < f["len"])
+                codes = [(f"bit{b}", 1 << b) for b in bits] + [("bits-all", sum(1 << b for b in bits))]
+                codes += [(f"nobit{b}", 1 << b) for b in range(f["len"]) if b not in set(bits)][:2]
+            for name, c in codes:
+                yield d, f"{i+1}:{name}", build_payload(d, {i: c})
+
+
 def variable_tail(f: dict, rng: random.Random | None) -> bytes:
     k = f["kind"]
     if k == "strlau":
